@@ -60,6 +60,17 @@ const char* polyseed_get_lang_name_en(const polyseed_lang* lang) {
 
 typedef int polyseed_cmp(const void* a, const void* b);
 
+/* The signedness of plain char is implementation-defined. The wordlists are
+   sorted with non-ASCII bytes ordered before ASCII ones (as with signed char),
+   so compare bytes that way explicitly. */
+#define IS_NON_ASCII(c) (((unsigned char)(c)) >= 0x80)
+
+static inline int compare_char(char a, char b) {
+    int x = ((unsigned char)a) ^ 0x80;
+    int y = ((unsigned char)b) ^ 0x80;
+    return (x > y) - (x < y);
+}
+
 static int lang_search(const polyseed_lang* lang, const char* word,
     polyseed_cmp* cmp) {
     if (lang->is_sorted) {
@@ -88,7 +99,7 @@ static int compare_str(const char* key, const char* elm) {
         ++key;
         ++elm;
     }
-    return (*key > *elm) - (*key < *elm);
+    return compare_char(*key, *elm);
 }
 
 static int compare_str_wrap(const void* a, const void* b) {
@@ -111,7 +122,7 @@ static int compare_prefix(const char* key, const char* elm, int n) {
         ++key;
         ++elm;
     }
-    return (*key > *elm) - (*key < *elm);
+    return compare_char(*key, *elm);
 }
 
 static int compare_prefix_wrap(const void* a, const void* b) {
@@ -122,10 +133,10 @@ static int compare_prefix_wrap(const void* a, const void* b) {
 
 static int compare_str_noaccent(const char* key, const char* elm) {
     for (;;) {
-        while (*key < 0) { /* skip non-ASCII */
+        while (IS_NON_ASCII(*key)) { /* skip non-ASCII */
             ++key;
         }
-        while (*elm < 0) { /* skip non-ASCII */
+        while (IS_NON_ASCII(*elm)) { /* skip non-ASCII */
             ++elm;
         }
         if (*key == '\0' || *key != *elm) {
@@ -134,7 +145,7 @@ static int compare_str_noaccent(const char* key, const char* elm) {
         ++key;
         ++elm;
     }
-    return (*key > *elm) - (*key < *elm);
+    return compare_char(*key, *elm);
 }
 
 static int compare_str_noaccent_wrap(const void* a, const void* b) {
@@ -145,10 +156,10 @@ static int compare_str_noaccent_wrap(const void* a, const void* b) {
 
 static int compare_prefix_noaccent(const char* key, const char* elm, int n) {
     for (int i = 1; ; ++i) {
-        while (*key < 0) { /* skip non-ASCII */
+        while (IS_NON_ASCII(*key)) { /* skip non-ASCII */
             ++key;
         }
-        while (*elm < 0) { /* skip non-ASCII */
+        while (IS_NON_ASCII(*elm)) { /* skip non-ASCII */
             ++elm;
         }
         if (*key == '\0') {
@@ -157,7 +168,7 @@ static int compare_prefix_noaccent(const char* key, const char* elm, int n) {
         if (i >= n) {
             /* the key ends here if only accents (non-ASCII) follow */
             const char* next = key + 1;
-            while (*next < 0) {
+            while (IS_NON_ASCII(*next)) {
                 ++next;
             }
             if (*next == '\0') {
@@ -170,13 +181,13 @@ static int compare_prefix_noaccent(const char* key, const char* elm, int n) {
         ++key;
         ++elm;
     }
-    while (*key < 0) { /* skip non-ASCII */
+    while (IS_NON_ASCII(*key)) { /* skip non-ASCII */
         ++key;
     }
-    while (*elm < 0) { /* skip non-ASCII */
+    while (IS_NON_ASCII(*elm)) { /* skip non-ASCII */
         ++elm;
     }
-    return (*key > *elm) - (*key < *elm);
+    return compare_char(*key, *elm);
 }
 
 static int compare_prefix_noaccent_wrap(const void* a, const void* b) {
